@@ -188,3 +188,75 @@ CONTRACTS[PP + "_validate_object_types"] = dict(
     calls={"PDDLType.is_sub_type": "models.pddl_type:PDDLType.is_sub_type"},
     loops={0: dict(invariants=["forall_int(lambda j: anc(_seq[j], " + _SIGT.format(i="j") + ".name), 0, _i)"], modifies=[])},
     spec_hooks=_C05_HOOKS)
+
+# ---- deductive: parse_objects implements the typed-list reading of the object list (with nested private lists) ------------------------
+# The specification is the same left-to-right fold as for constants (contracts/c06.py: tl_*), over a list of expressions whose items
+# may be nested `(:private ...)` lists: an item that is a list contributes the objects of its own tail.
+import z3 as _z3
+from pyvc.core import Val as _Val
+from pyvc.sorts import I as _I, S as _S, B as _B, SExp as _SExp, SList as _SList, OPAQUE_FUNCS as _OPQ
+_snth, _slen, _srest = _OPQ["snth"], _OPQ["slen"], _OPQ["srest"]
+ol_mark = _z3.RecFunction("ol_mark", _SList, _I, _B)
+ol_pend = _z3.RecFunction("ol_pend", _SList, _S, _I, _B)
+ol_has = _z3.RecFunction("ol_has", _SList, _S, _I, _B)
+ol_type = _z3.RecFunction("ol_type", _SList, _S, _I, _S)
+_l, _s, _i = _z3.Const("ol_l", _SList), _z3.Const("ol_s", _S), _z3.Int("ol_i")
+_tok = _snth(_l, _i - 1)
+_DASH = _SExp.Atom(_z3.StringVal("-"))
+_sub = _srest(_SExp.items(_tok))
+_sub_has = _z3.Or(ol_has(_sub, _s, _slen(_sub)), ol_pend(_sub, _s, _slen(_sub)))
+_sub_type = _z3.If(ol_pend(_sub, _s, _slen(_sub)), _z3.StringVal("object"), ol_type(_sub, _s, _slen(_sub)))
+_z3.RecAddDefinition(ol_mark, [_l, _i], _z3.If(_i <= 0, False, _z3.If(ol_mark(_l, _i - 1), False, _tok == _DASH)))
+_z3.RecAddDefinition(ol_pend, [_l, _s, _i], _z3.If(_i <= 0, False, _z3.If(ol_mark(_l, _i - 1), False,
+                     _z3.If(_z3.Or(_SExp.is_Lst(_tok), _tok == _DASH), ol_pend(_l, _s, _i - 1), _z3.Or(ol_pend(_l, _s, _i - 1), _tok == _SExp.Atom(_s))))))
+_z3.RecAddDefinition(ol_has, [_l, _s, _i], _z3.If(_i <= 0, False, _z3.If(ol_mark(_l, _i - 1), _z3.Or(ol_has(_l, _s, _i - 1), ol_pend(_l, _s, _i - 1)),
+                     _z3.If(_SExp.is_Lst(_tok), _z3.Or(ol_has(_l, _s, _i - 1), _sub_has), ol_has(_l, _s, _i - 1)))))
+_z3.RecAddDefinition(ol_type, [_l, _s, _i], _z3.If(_i <= 0, _z3.StringVal(""),
+                     _z3.If(_z3.And(ol_mark(_l, _i - 1), ol_pend(_l, _s, _i - 1)), _SExp.s(_tok),
+                            _z3.If(_z3.And(_z3.Not(ol_mark(_l, _i - 1)), _SExp.is_Lst(_tok), _sub_has), _sub_type, ol_type(_l, _s, _i - 1)))))
+_osize = _z3.Function("ol_size", _SList, _I)
+OL_HOOKS = dict(
+    _C05_HOOKS,
+    ol_mark=lambda interp, st, a: _Val(ol_mark(a[0].t, a[1].t), "bool"),
+    ol_pend=lambda interp, st, a: _Val(ol_pend(a[0].t, a[1].t, a[2].t), "bool"),
+    ol_has=lambda interp, st, a: _Val(ol_has(a[0].t, a[1].t, a[2].t), "bool"),
+    ol_type=lambda interp, st, a: _Val(ol_type(a[0].t, a[1].t, a[2].t), "str"),
+    ol_size=lambda interp, st, a: _Val(_osize(a[0].t), "int"),
+    is_list=lambda interp, st, a: _Val(_SExp.is_Lst(a[0].t), "bool"),
+    atom=lambda interp, st, a: _Val(_SExp.s(a[0].t), "str"),
+    items=lambda interp, st, a: _Val(_SExp.items(a[0].t), "slist"),
+)
+_N = "slen(objects_ast)"
+_T = "self.domain.types"
+_BAD = f"exists_int(lambda j: ol_mark(objects_ast, j) and not is_list(snth(objects_ast, j)) and atom(snth(objects_ast, j)) not in {_T}, 0, {_N})"
+CONTRACTS[PP + "parse_objects"] = dict(
+    prop="C05", shards=6,
+    params={"self": ("ref", "ProblemParser"), "objects_ast": "slist"},
+    locals={"problem_objects": ("ref", "dict_PDDLObject"), "same_type_objects": ("seq", "str"), "private_objects": ("ref", "dict_PDDLObject")},
+    returns=("ref", "dict_PDDLObject"), dictcomp_duplicates=True, opaque_funcs=("snth", "slen", "sfirst", "srest"),
+    # assumed lemmas about the hidden list functions: a length is not negative; the tail of a nested item is smaller than the list
+    axioms=["forall_slist(lambda l: slen(l) >= 0 and ol_size(l) >= 0)",
+            "forall_int(lambda j: ol_size(srest(items(snth(objects_ast, j)))) < ol_size(objects_ast), 0, slen(objects_ast))"],
+    decreases="ol_size(objects_ast)",
+    requires=["allocated(self)", "allocated(self.domain)", f"allocated({_T})"],
+    ensures=[
+        "fresh(result)",
+        # exactly the declared names (of this list and of its nested private lists) ...
+        f"forall_str(lambda s: (s in result) == (ol_has(objects_ast, s, {_N}) or ol_pend(objects_ast, s, {_N})))",
+        # ... each an object carrying its name and the type object registered under the declared type name ('object' for trailing names)
+        f"forall_str(lambda s: implies(s in result, fresh(result[s]) and result[s].name == s and result[s].type == "
+        f"{_T}[('object' if ol_pend(objects_ast, s, {_N}) else ol_type(objects_ast, s, {_N}))]))"],
+    # (errors may also come from a nested private list, hence no sharper "only when" for them; KeyError needs a missing default type)
+    raises={"ValueError": "True", "KeyError": f"'object' not in {_T}", "IndexError": "True", "TypeError": "True"},
+    # an undeclared type name after a dash of this list is never accepted
+    must_raise=[_BAD],
+    modifies=[],
+    calls={"self.parse_objects": PP + "parse_objects"},
+    loops={0: dict(invariants=[
+        "fresh(problem_objects)", f"0 <= iterator and iterator <= {_N}", "not ol_mark(objects_ast, iterator)",
+        "forall_str(lambda s: (s in same_type_objects) == ol_pend(objects_ast, s, iterator))",
+        "forall_str(lambda s: (s in problem_objects) == ol_has(objects_ast, s, iterator))",
+        f"forall_int(lambda j: implies(ol_mark(objects_ast, j) and not is_list(snth(objects_ast, j)), atom(snth(objects_ast, j)) in {_T}), 0, iterator)",
+        f"forall_str(lambda s: implies(s in problem_objects, fresh(problem_objects[s]) and problem_objects[s].name == s and problem_objects[s].type == {_T}[ol_type(objects_ast, s, iterator)]))"],
+        modifies=["dict_PDDLObject.keys[problem_objects]", "dict_PDDLObject.map[problem_objects]", "PDDLObject.name", "PDDLObject.type"])},
+    spec_hooks=OL_HOOKS)
